@@ -1791,7 +1791,10 @@ def run(ctx):
         "(valid and malformed), axioms, theorems with attributes, constants, types, headers; a case = one item, non-trivial = accepted; distinct by "
         "the JSON text. Added: definitions whose right-hand side negates the constant at a type related to its own (type variables permuted, "
         "merged, renamed, partially instantiated, wrapped); items with rules / statements / constructor lists of 60-300 characters; every "
-        "accepted item's editor round trip under line_length in {120, 80, 60, 40} x unicode (library theorems at quick tier: two settings each).")
+        "accepted item's editor round trip under line_length in {120, 80, 60, 40} x unicode (library theorems at quick tier: two settings each). "
+        "Added (audit): unchecked definitional kinds with overlapping / non-exhaustive / non-terminating equations, negative premises, conclusions "
+        "that are not the predicate, non-positive constructor arguments; re-declared types, constants, theorem names (also as two-item sequences); "
+        "looping / unknown / repeated attributes; rejected items through both round trips.")
     ok = ctx.lean_props(["Holpy.C11.Props"], exes=[EXE])
     if ctx.tier == "thorough" and ok:
         ctx.lean_check_modules(["Holpy.C11.Props"])
@@ -1883,26 +1886,31 @@ def replay(ctx, rp):
 
 
 MANIFEST = {
-    "text": "Lean theorems about the model `defOK` of the (fixed) side conditions of Definition.parse: for an accepted definition of a new constant, in "
-            "every finite standard model and for every interpretation of the old signature there is a value of the new constant (the curried function "
-            "given by the right-hand side) under which the defining equation holds for all values of all variables (def_conservative); the same for ALL "
-            "type instances of the equation simultaneously, changing the valuation only at the instances of the constant's type "
-            "(def_conservative_poly, from def_conservative_family); a satisfiable set of sequents stays satisfiable with the equation added "
-            "(def_keeps_consistency); the generated theorem passes check_thm_type (def_ext_welltyped); one counterexample theorem per side condition "
-            "(self reference, self reference at a type with permuted type variables, extra type variable, free variable, non-variable argument: "
-            "no interpretation exists; repeated argument: the interpretation is not unique). defOK is tied to server/items.py by differential execution on generated item descriptions (both sides see "
-            "the parser's output); every accepted generated definition is checked against the side conditions directly and searched for a finite "
-            "counter-model over several type instances with the same `sem`; every item of the 43 library files and generated datatypes / recursive "
-            "functions / inductive predicates / axioms / theorems / constants are run through parse_item, get_extension (checked with "
-            "Theory.check_type/check_term and Thm.check_thm_type over the extended theory) and both round trips as monitor.check_theory compares them; the editor round trip is repeated under the "
-            "ambient settings app/ide.py uses (line_length 120/80/60/40, unicode on/off), also on generated items with long rules and statements.",
+    "text": "PROVED (Lean, about the hand-written model `defOK` of the side conditions Definition.parse checks; only items of kind `def`, i.e. "
+            "equations c x1..xn = rhs, n >= 0): in every finite standard model and for every interpretation of the old constants the new constant has a "
+            "value (the curried function given by rhs) under which the equation holds for all values of all variables (def_conservative); one valuation, "
+            "changed only at the type instances of the constant, satisfies all type instances of the equation (def_conservative_family, "
+            "def_conservative_poly); sequents that do not mention the constant stay satisfied together with the equation (def_keeps_consistency, "
+            "def_keeps_consistency_poly); for a constant definition c = t a sequent over the old signature that is Valid with the equation as a "
+            "hypothesis is Valid without it (const_def_eliminable); the generated theorem passes check_thm_type, and checkThmTypeSig when the logical "
+            "constants are used at their types (def_ext_welltyped); six counterexample theorems (self reference, at a type with permuted type "
+            "variables, extra type variable, free variable, non-variable argument: no interpretation; repeated argument: not unique). NOT proved: "
+            "anything about def.ind / def.pred / type.ind (recursive functions, inductive predicates, datatypes) or the .ax kinds, infinite models, "
+            "Theory.check_term, uniqueness of the interpretation. COMPARED on every run (real code, generated and library inputs): Definition.parse's "
+            "accept/reject against defOK on the parser's output; every accepted generated `def` against the side conditions directly (own unifier) and "
+            "against a finite counter-model search over groups of type instances (Lean `sem`); re-declaration of a constant instance; for items of "
+            "EVERY kind (all items of the 43 library files, generated valid and malformed ones, sequences with name clashes, long rules): "
+            "get_extension checked with Theory.check_type/check_term and Thm.check_thm_type over the extended theory; parse_item(export_json()) and "
+            "parse_edit(get_display()) judged by Item.__eq__ AND equality of export_json() and get_display() of the two items, the editor form also "
+            "under line_length 120/80/60/40 and unicode on/off; rejected items keep their text and error through both round trips; syntactic hazards of "
+            "accepted def.ind / def.pred / type.ind items (overlapping equations, recursive call on the same arguments, negative occurrence, "
+            "non-positive constructor argument, type declared twice) are reported (known findings).",
     "note": "Trusted: Lean kernel, axioms propext/Classical.choice/Quot.sound; the parser/printer (C07/C08) whose output is the object of the side "
-            "conditions; the hand model's fidelity is as good as the generated items exercise it. Fun/Inductive/Datatype/Axiom/Constant items are "
-            "axiomatic: no conservativity claim, only well-typed extensions and round trips. For overloaded constants newness is the instance check "
-            "added to add_term_sig (fix C11-2); generic axioms about an overloaded constant constrain later instances by design. `is_apart` is a "
-            "sufficient test for 'no common instance' (constructor clash), so some harmless definitions are rejected. Uniqueness of the interpretation "
-            "(where distinctness of the arguments is needed) is shown only by the counterexample, not as a theorem.",
-    "design_ref": "DESIGN.md 4/C11",
+            "conditions; the hand model's fidelity is as good as the generated items exercise it. A rejected library item is not a violation (the "
+            "property does not say library items are accepted): it is counted and reported as a stream that no longer checks. For overloaded constants "
+            "newness is the instance check of add_term_sig; generic axioms about an overloaded constant constrain later instances by design. "
+            "`is_apart` is a sufficient test for 'no common instance' (constructor clash), so some harmless definitions are rejected.",
+    "design_ref": "DESIGN.md 4/C11, 8.15",
 }
 FINDINGS = [
     {"status": "fixed", "key": "non-conservative:def-side-conditions", "commit": "8341fb5",
